@@ -457,6 +457,33 @@ theorem validated_denial_authority_in_zone {signer : Name} {l : List SecRR} {r :
 example : filterToZone ["test", "zone"] [⟨["test", "zone"], 6, none⟩, ⟨["test", "other", "victim"], 1, none⟩] =
     [⟨["test", "zone"], 6, none⟩] := by decide
 
+/-- **Only the denial's own records reach a validated denial**: what `filterAuthorityRecords` lets through
+is SOA, NSEC, NSEC3 or RRSIG — never an NS RRset, which the signature check would skip unseen. -/
+theorem authority_allowlist {types : List Nat} {t : Nat} (h : t ∈ filterAuthorityRecords types) :
+    t ∈ types ∧ (t = 6 ∨ t = 47 ∨ t = 50 ∨ t = 46) := by
+  unfold filterAuthorityRecords at h
+  rw [List.mem_filter] at h
+  refine ⟨h.1, ?_⟩
+  have := h.2
+  unfold denialRecordType at this
+  simp only [Bool.or_eq_true, beq_iff_eq] at this
+  rcases this with ((h1 | h2) | h3) | h4
+  · exact Or.inl h1
+  · exact Or.inr (Or.inl h2)
+  · exact Or.inr (Or.inr (Or.inl h3))
+  · exact Or.inr (Or.inr (Or.inr h4))
+
+example : filterAuthorityRecords [6, 2, 46, 47, 1, 2] = [6, 46, 47] := by decide
+
+/-- **A DNAME answer is authentic only if its target leg is** — records or empty-answer denial alike:
+a signed DNAME into an unsigned zone never yields AD, whatever the unsigned zone says. -/
+theorem dname_ad_needs_target {outer target : Bool} {n : Nat} (h : dnameSpliceAD outer target n = true) :
+    outer = true ∧ target = true := by
+  unfold dnameSpliceAD at h
+  simpa using h
+
+example : dnameSpliceAD true false 0 = false := by decide
+
 /-! ## how long a validated response is cached -/
 
 theorem sectionBound_le_start (a : Bool) : ∀ (l : List TTLItem) (s : Nat), sectionBound a l s ≤ s := by
@@ -874,7 +901,9 @@ theorem gates_present_in_tree :
     SdnsVerif.Gen.C01.shape_key_fetch_is_validated = true ∧
     SdnsVerif.Gen.C01.shape_cd_fetch_only_before_explicit_validation = true ∧
     SdnsVerif.Gen.C01.shape_wildcard_proof_from_filtered_authority = true ∧
-    SdnsVerif.Gen.C01.shape_validated_denial_keeps_signer_zone_only = true := by
+    SdnsVerif.Gen.C01.shape_validated_denial_keeps_signer_zone_only = true ∧
+    SdnsVerif.Gen.C01.shape_dname_target_ad_anded_whatever_the_target_carries = true ∧
+    SdnsVerif.Gen.C01.shape_soa_beside_ns_goes_through_allowlist = true := by
   decide
 
 /-! ## a zone is treated as unsigned only on proof -/
